@@ -42,7 +42,8 @@ def main():
     only = set(a for a in sys.argv[1:] if not a.startswith("-j"))
     par = int(([a[2:] for a in sys.argv[1:] if a.startswith("-j")] or ["3"])[0])
     head = sh("git -C /repo rev-parse HEAD").stdout.strip()
-    dirs = [d for d in sorted(glob.glob(os.path.join(V, "seeded", "C*-*"))) if not only or os.path.basename(d) in only]
+    import fnmatch
+    dirs = [d for d in sorted(glob.glob(os.path.join(V, "seeded", "C*-*"))) if os.path.isdir(d) and (not only or any(fnmatch.fnmatch(os.path.basename(d), o) for o in only))]
     # a change that a later fix: commit made ineffective is kept for the record but cannot be detected any more
     dirs = [d for d in dirs if not json.load(open(os.path.join(d, "meta.json"))).get("neutralised_by_fix")]
     q = queue.Queue()
@@ -61,12 +62,25 @@ def main():
     ts = [threading.Thread(target=lane, args=(i,)) for i in range(par)]
     [t.start() for t in ts]
     [t.join() for t in ts]
-    rows.sort()
+    # a run over a subset updates the rows of that subset and keeps the others
+    mpath = os.path.join(V, "seeded", "MATRIX.md")
+    merged = {}
+    if only and os.path.exists(mpath):
+        for l in open(mpath):
+            c = [x.strip() for x in l.strip().strip("|").split(" | ")]
+            if l.startswith("| C") and len(c) >= 5:
+                merged[c[0]] = (c[0], c[1], c[2], " | ".join(c[3:-1]), c[-1])
+    for r in rows:
+        merged[r[0]] = r
+    allrows = sorted(merged.values())
     for i in range(par):
         sh(f"git -C /repo worktree remove --force /tmp/wt/m{i}")
-    with open(os.path.join(V, "seeded", "MATRIX.md"), "w") as f:
-        f.write(f"# Seeded changes vs checks (quick tier), /repo HEAD {head[:7]}\n\n| seeded change | check | verdict | first new signature | s |\n|---|---|---|---|---|\n")
-        for row in rows:
+    with open(mpath, "w") as f:
+        det = sum(1 for r in allrows if r[2] == "DETECTED")
+        f.write(f"# Seeded changes vs checks (quick tier), /repo HEAD {head[:7]}\n\n{len(allrows)} changes from six waves of independent sub-agents; {det} detected"
+                f"{', ' + str(len(allrows) - det) + ' not (see the verdict column; NEUTRALISED = made ineffective by a repair of the unchanged tree)' if det != len(allrows) else ''}.\n\n"
+                "| seeded change | check | verdict | first new signature | s |\n|---|---|---|---|---|\n")
+        for row in allrows:
             f.write("| " + " | ".join(str(x) for x in row) + " |\n")
     bad = [r for r in rows if r[2] != "DETECTED"]
     print(f"{len(rows) - len(bad)}/{len(rows)} detected")
